@@ -58,6 +58,16 @@ class FileExecutor(ExecutorBase):
         resource_dict.update(
             {k: v for k, v in default_resource_dict.items() if k not in resource_dict}
         )
+        if execute_function == execute_in_subprocess:
+            # the subprocess spawner refuses these options when the first task is started
+            if pysqa_config_directory is not None:
+                raise ValueError(
+                    "config_directory parameter is not supported for subprocess spawner."
+                )
+            if backend is not None:
+                raise ValueError(
+                    "backend parameter is not supported for subprocess spawner."
+                )
         if execute_function == execute_in_subprocess and terminate_function is None:
             terminate_function = terminate_subprocess
         cache_directory_path = os.path.abspath(cache_directory)
